@@ -255,7 +255,15 @@ public:
     static const int caps[] = {1, 2, 4, 256, 256};
     int cap = caps[g.rng.below(5)];
     int layout = (int)g.rng.below(2); // 0: keys 0..n-1, 1: keys i*256 (share a bucket for every capacity <= 256)
+    if (g.rng.chance(12)) {
+      // dense: many keys that collide in one bucket of a table with extension buckets (128 buckets, 10 extension
+      // items): the extension pool runs dry, grow() has to redistribute chains that are still longer than a bucket
+      nkeys = g.rng.range(14, 22);
+      cap = 128;
+      layout = 2;
+    }
     int prefill = (int)g.rng.below(nkeys + 1);
+    if (layout == 2 && g.rng.chance(70)) prefill = g.rng.range(10, nkeys);
     bool seq = !c11 && g.rng.chance(8);
     p.params = {nkeys, cap, layout, prefill, c11 ? 1 : 0};
     int nextv = 100;
@@ -291,7 +299,7 @@ public:
   int key(int k) const { return k * stride; }
   void setup(const Program& p) override {
     nkeys = (int)p.params[0];
-    stride = p.params[2] ? 256 : 1;
+    stride = p.params[2] == 0 ? 1 : p.params[2] == 1 ? 256 : 128;
     traversal_id = 0;
     m = cfgs[p.config].make((size_t)p.params[1]);
     for (int k = 0; k < p.params[3]; k++) run(Op{OP_EMPLACE, k, 10 + k, 0});
@@ -428,7 +436,7 @@ void VHarness::check(CheckCtx& c) {
     return c.fail("iteration-mismatch", "quiescent iteration yields {%s} but lookups find {%s}", b.c_str(), a.c_str());
   }
   // ---- C11: traversals (iterator holds its bucket exclusively)
-  bool single_bucket = c.prog.params[2] != 0 || strstr(cfgs[c.prog.config].name, "consthash") != nullptr;
+  bool single_bucket = c.prog.params[2] == 1 || strstr(cfgs[c.prog.config].name, "consthash") != nullptr;
   for (int ti = 0; ti < h.n; ti++) {
     if (h.ops[ti].status >= 0 || h.ops[ti].kind != OP_T_BEGIN) continue;
     int id = (int)h.ops[ti].b;
